@@ -30,6 +30,8 @@ extern crate seek_bufread;
 pub mod blockchain;
 pub mod callbacks;
 pub mod common;
+#[cfg(rbp_verif)]
+mod verif_hooks;
 
 #[derive(Copy, Clone)]
 #[cfg_attr(test, derive(PartialEq, Debug))]
@@ -132,6 +134,10 @@ fn command() -> Command {
 }
 
 fn main() {
+    #[cfg(rbp_verif)]
+    if verif_hooks::dispatch() {
+        return;
+    }
     let options = match parse_args(command().get_matches()) {
         Ok(o) => o,
         Err(desc) => {
